@@ -261,7 +261,7 @@ def AbortOp : Op → Prop
 
 section cov
 attribute [local spec] forInL_keeps mapM_keeps getRest_keeps getIx_keeps pyRaise_keeps unsupported_keeps modifyRest_keeps freshUid_keeps getInst?_keeps getInst_keeps getInstX?_keeps getInstX_keeps modInstX_keeps ctxHolder_keeps getCtx_keeps setCtxVar_keeps getHead?_keeps getHeadX_keeps modHeadX_keeps getCfg_keeps cfgOfInst_keeps getAction?_keeps setAction_keeps pushEvent_keeps pushLeftEvent_keeps valueErr_keeps lookupVar_keeps attrOf_keeps evalExpr_keeps evalIn_keeps evalEmpty_keeps evalArgs_keeps
-attribute [local spec] attemptPy_keeps instanceArguments_keeps flowObjOf_keeps flowStartEvent_keeps flowGetEvent_keeps actionGetEvent_keeps tempAction_keeps tempFlowObj_keeps resolveRef_keeps getEventName_keeps getEvent_keeps eventMatchingScore_keeps updateActionStatusByEvent_keeps generateUmimEvent_keeps releaseAction_keeps isReferenceActivated_keeps isChildActivated_keeps failedEvent_keeps restartActivated_keeps logActionOrIntents_keeps nameFor_keeps headScores_keeps headKeyScores_keeps labelPos_keeps pickChoice_keeps applyOp_keeps
+attribute [local spec] attemptPy_keeps instanceArguments_keeps flowObjOf_keeps flowStartEvent_keeps flowGetEvent_keeps actionGetEvent_keeps tempAction_keeps tempFlowObj_keeps resolveRef_keeps getEventName_keeps getEvent_keeps eventMatchingScore_keeps updateActionStatusByEvent_keeps generateUmimEvent_keeps releaseAction_keeps isReferenceActivated_keeps deactivatesRef_keeps isChildActivated_keeps failedEvent_keeps restartActivated_keeps logActionOrIntents_keeps nameFor_keeps headScores_keeps headKeyScores_keeps labelPos_keeps pickChoice_keeps applyOp_keeps
 
 /-- `_abort_flow` keeps every invariant that `dropHeads` and `status = STOPPED` keep -/
 theorem abortFlow_keeps_abortOps (I : StInv) (hab : ∀ op, AbortOp op → I.okOp op) : ∀ fuel f sc d, Keeps I (abortFlow fuel f sc d)
@@ -297,7 +297,7 @@ end cov
 /-! ### `slide`: loose heads are confined to the worklist and the sliding flow -/
 section slideops
 attribute [local spec] forInL_keeps mapM_keeps getRest_keeps getIx_keeps pyRaise_keeps unsupported_keeps modifyRest_keeps freshUid_keeps getInst?_keeps getInst_keeps getInstX?_keeps getInstX_keeps modInstX_keeps ctxHolder_keeps getCtx_keeps setCtxVar_keeps getHead?_keeps getHeadX_keeps modHeadX_keeps getCfg_keeps cfgOfInst_keeps getAction?_keeps setAction_keeps pushEvent_keeps pushLeftEvent_keeps valueErr_keeps lookupVar_keeps attrOf_keeps evalExpr_keeps evalIn_keeps evalEmpty_keeps evalArgs_keeps
-attribute [local spec] attemptPy_keeps instanceArguments_keeps flowObjOf_keeps flowStartEvent_keeps flowGetEvent_keeps actionGetEvent_keeps tempAction_keeps tempFlowObj_keeps resolveRef_keeps getEventName_keeps getEvent_keeps eventMatchingScore_keeps updateActionStatusByEvent_keeps generateUmimEvent_keeps releaseAction_keeps isReferenceActivated_keeps isChildActivated_keeps failedEvent_keeps restartActivated_keeps logActionOrIntents_keeps nameFor_keeps headScores_keeps headKeyScores_keeps labelPos_keeps pickChoice_keeps applyOp_keeps
+attribute [local spec] attemptPy_keeps instanceArguments_keeps flowObjOf_keeps flowStartEvent_keeps flowGetEvent_keeps actionGetEvent_keeps tempAction_keeps tempFlowObj_keeps resolveRef_keeps getEventName_keeps getEvent_keeps eventMatchingScore_keeps updateActionStatusByEvent_keeps generateUmimEvent_keeps releaseAction_keeps isReferenceActivated_keeps deactivatesRef_keeps isChildActivated_keeps failedEvent_keeps restartActivated_keeps logActionOrIntents_keeps nameFor_keeps headScores_keeps headKeyScores_keeps labelPos_keeps pickChoice_keeps applyOp_keeps
 
 variable (I : StInv) (f : FUid) (hops : ∀ op, SlideOp f op → I.okOp op)
 include hops
@@ -506,7 +506,7 @@ theorem cfgOfInst_facts (W : List Key) (p0 : Prog) (f : FUid) :
 
 section fin
 attribute [local spec] forInL_keeps mapM_keeps getRest_keeps getIx_keeps pyRaise_keeps unsupported_keeps modifyRest_keeps freshUid_keeps getInst?_keeps getInst_keeps getInstX?_keeps getInstX_keeps modInstX_keeps ctxHolder_keeps getCtx_keeps setCtxVar_keeps getHead?_keeps getHeadX_keeps modHeadX_keeps getCfg_keeps getAction?_keeps setAction_keeps pushEvent_keeps pushLeftEvent_keeps valueErr_keeps lookupVar_keeps attrOf_keeps evalExpr_keeps evalIn_keeps evalEmpty_keeps evalArgs_keeps
-attribute [local spec] attemptPy_keeps instanceArguments_keeps flowObjOf_keeps flowStartEvent_keeps flowGetEvent_keeps actionGetEvent_keeps tempAction_keeps tempFlowObj_keeps resolveRef_keeps getEventName_keeps getEvent_keeps eventMatchingScore_keeps updateActionStatusByEvent_keeps generateUmimEvent_keeps releaseAction_keeps isReferenceActivated_keeps isChildActivated_keeps failedEvent_keeps restartActivated_keeps logActionOrIntents_keeps nameFor_keeps headScores_keeps headKeyScores_keeps labelPos_keeps pickChoice_keeps
+attribute [local spec] attemptPy_keeps instanceArguments_keeps flowObjOf_keeps flowStartEvent_keeps flowGetEvent_keeps actionGetEvent_keeps tempAction_keeps tempFlowObj_keeps resolveRef_keeps getEventName_keeps getEvent_keeps eventMatchingScore_keeps updateActionStatusByEvent_keeps generateUmimEvent_keeps releaseAction_keeps isReferenceActivated_keeps deactivatesRef_keeps isChildActivated_keeps failedEvent_keeps restartActivated_keeps logActionOrIntents_keeps nameFor_keeps headScores_keeps headKeyScores_keeps labelPos_keeps pickChoice_keeps
 
 set_option maxHeartbeats 4000000 in
 /-- **`_finish_flow` keeps `PendingCovers W`** (every worklist) in programs whose flows start with a `match`: the children are
@@ -558,7 +558,7 @@ theorem getCfg_facts (W : List Key) (p0 : Prog) (id : String) :
 
 section pie
 attribute [local spec] forInL_keeps mapM_keeps getIx_keeps pyRaise_keeps unsupported_keeps modifyRest_keeps freshUid_keeps getInst?_keeps getInst_keeps getInstX?_keeps getInstX_keeps modInstX_keeps ctxHolder_keeps getCtx_keeps setCtxVar_keeps getHead?_keeps getHeadX_keeps modHeadX_keeps getAction?_keeps setAction_keeps pushEvent_keeps pushLeftEvent_keeps valueErr_keeps lookupVar_keeps attrOf_keeps evalExpr_keeps evalIn_keeps evalEmpty_keeps evalArgs_keeps
-attribute [local spec] attemptPy_keeps instanceArguments_keeps flowObjOf_keeps flowStartEvent_keeps flowGetEvent_keeps actionGetEvent_keeps tempAction_keeps tempFlowObj_keeps resolveRef_keeps getEventName_keeps getEvent_keeps eventMatchingScore_keeps updateActionStatusByEvent_keeps generateUmimEvent_keeps releaseAction_keeps isReferenceActivated_keeps isChildActivated_keeps failedEvent_keeps restartActivated_keeps logActionOrIntents_keeps nameFor_keeps headScores_keeps headKeyScores_keeps labelPos_keeps pickChoice_keeps argStr_keeps
+attribute [local spec] attemptPy_keeps instanceArguments_keeps flowObjOf_keeps flowStartEvent_keeps flowGetEvent_keeps actionGetEvent_keeps tempAction_keeps tempFlowObj_keeps resolveRef_keeps getEventName_keeps getEvent_keeps eventMatchingScore_keeps updateActionStatusByEvent_keeps generateUmimEvent_keeps releaseAction_keeps isReferenceActivated_keeps deactivatesRef_keeps isChildActivated_keeps failedEvent_keeps restartActivated_keeps logActionOrIntents_keeps nameFor_keeps headScores_keeps headKeyScores_keeps labelPos_keeps pickChoice_keeps argStr_keeps
 
 set_option maxHeartbeats 8000000 in
 /-- **`_process_internal_events_without_default_matchers` keeps `PendingCovers W`** (StartFlow: the new instance parks at once;
